@@ -166,6 +166,7 @@ Section Dialect.
               | FStr v =>
                   if bytes_eqb v [] && empty then convert_attrs rest t acc
                   else convert_attrs rest t ({| a_K := ta_name a; a_V := AStr v |} :: acc)
+              | FStrs [] => Panic   (* StringsAttr -> cty.ListVal(empty slice) panics *)
               | FStrs vs => convert_attrs rest t ({| a_K := ta_name a; a_V := AList vs |} :: acc)
               | _ => Err
               end
@@ -273,6 +274,7 @@ Section Dialect.
   (** evaluation of a type expression in the column scope (WithTypes vars / funcs) *)
   Definition hcl_eval (e : hexpr) : res HType :=
     match e with
+    | HSql [] => Err   (* sql(""): a column with an empty type does not evaluate *)
     | HSql t => Ok {| h_T := t; h_attrs := [] |}
     | HIdent n =>
         match find_name reg n with
